@@ -246,9 +246,9 @@ def plugin_api_cpp():
                        funcs_cpp=["extern const TypeLayout *ROOT_LAYOUT;", "int32_t load_plugin(ReprCStr name, MaybeUninit<PluginInnerArcBox> *ok_out);"])
 
 
-def random_cpp(seed, fnptr=False, wrapped=False, layout=False, plain=False):
+def random_cpp(seed, fnptr=False, wrapped=False, layout=False, plain=False, wrapped_ctx=None):
     import random
-    m = emit.random_model(seed, fnptr=fnptr, wrapped=wrapped, plain=plain)
+    m = emit.random_model(seed, fnptr=fnptr, wrapped=wrapped, plain=plain, wrapped_ctx=wrapped_ctx)
     rng = random.Random(seed ^ 0x5eed)
     # UserThing and Settings first: later user declarations and functions mention them
     user = [(0, USER_DECLS_CPP[0]), (0, USER_DECLS_CPP[2])]
